@@ -59,6 +59,15 @@ Section DistanceFilters.
     - intros acc d s0 e0. unfold gen_NBC_FarEnough_forl1. dunf.
       rewrite (forl_fold (fun cs sib => filter (fun ind => has_centroid sib && Z.ltb (nbc_thr d) (dist ind sib)) cs)).
       + cbn beta iota. f_equal. f_equal. f_equal. f_equal. unfold far_filter, far_enough, considered, act_of, lvl_at.
+        (* however the source writes "active, or all demes are to be considered" *)
+        repeat match goal with
+               | |- context [filter ?p (level_ids ?dd ?ll)] =>
+                   lazymatch p with
+                   | (fun s1 => d_active (dnth s1 _) || negb only_active) => fail
+                   | _ => rewrite (filter_ext p (fun s1 => d_active (dnth s1 (demes (ms s0))) || negb only_active))
+                            by (intros x; destruct (d_active (dnth x (demes (ms s0)))), only_active; reflexivity)
+                   end
+               end.
         generalize (cm_get acc d). generalize (filter (fun s1 => d_active (dnth s1 (demes (ms s0))) || negb only_active) (level_ids (demes (ms s0)) (d_lvl (dnth d (demes (ms s0))) + 1))).
         intros sibs. induction sibs as [|sib r IH]; intros cs; [reflexivity|]. cbn [fold_left]. rewrite <- IH. f_equal.
         apply filter_ext. intros ind. unfold dist_or. destruct (has_centroid sib); cbn [andb]; [reflexivity|now rewrite Z.ltb_irrefl].
